@@ -1,2 +1,551 @@
-From PD Require Import Model.Tracking.
-Lemma stub_C06 : True. Proof. exact I. Qed.
+(* C06 -- tracking neither loses, duplicates nor alters droplets.
+   Theorems about Model/Tracking.v (both methods), for any number of frames and droplets. *)
+From Coq Require Import List Bool Arith Lia QArith Permutation Sorted.
+Import ListNotations.
+From PD Require Import Model.Tracking Proofs.Tracking Proofs.TrackingOv Proofs.TrackingDist.
+
+Local Open Scope nat_scope.
+
+(* ------------------------------------------------------------------------------------------ *)
+(* auxiliary: ids of different tracks are different                                            *)
+(* ------------------------------------------------------------------------------------------ *)
+Lemma all_ids_of_concat trs : all_ids_of trs = concat (map ids trs).
+Proof. unfold all_ids_of, all_entries, ids. rewrite concat_map, map_map. reflexivity. Qed.
+
+Lemma concat_nodup_disjoint {A} (ls : list (list A)) : forall i j l1 l2 a,
+  NoDup (concat ls) -> nth_error ls i = Some l1 -> nth_error ls j = Some l2 -> i < j ->
+  In a l1 -> In a l2 -> False.
+Proof.
+  induction ls as [|l ls IH]; intros i j l1 l2 a Hn Hi Hj Hlt H1 H2; [destruct i; discriminate|].
+  simpl in Hn. destruct j as [|j]; [lia|]. simpl in Hj.
+  destruct i as [|i]; simpl in Hi.
+  - inversion Hi; subst l1. clear Hi.
+    assert (Hin : In a (concat ls)) by (apply in_concat; exists l2; split; [eapply nth_error_In; eauto|exact H2]).
+    clear - Hn H1 Hin. induction l as [|x l IHl]; [destruct H1|].
+    simpl in Hn. inversion Hn as [|? ? Hx Hn']; subst. destruct H1 as [->|H1].
+    + apply Hx. apply in_app_iff. auto.
+    + apply IHl; assumption.
+  - apply (IH i j l1 l2 a); auto; [|lia]. clear - Hn. induction l as [|x l IHl]; [exact Hn|].
+    simpl in Hn. inversion Hn; auto.
+Qed.
+
+Lemma tracks_disjoint trs k1 k2 tr1 tr2 a :
+  NoDup (all_ids_of trs) -> nth_error trs k1 = Some tr1 -> nth_error trs k2 = Some tr2 ->
+  In a (ids tr1) -> In a (ids tr2) -> k1 = k2.
+Proof.
+  intros Hn H1 H2 I1 I2. rewrite all_ids_of_concat in Hn.
+  destruct (Nat.lt_trichotomy k1 k2) as [Hlt|[E|Hgt]]; [|exact E|]; exfalso.
+  - apply (concat_nodup_disjoint (map ids trs) k1 k2 (ids tr1) (ids tr2) a Hn);
+      [rewrite nth_error_map, H1; reflexivity|rewrite nth_error_map, H2; reflexivity|exact Hlt|exact I1|exact I2].
+  - apply (concat_nodup_disjoint (map ids trs) k2 k1 (ids tr2) (ids tr1) a Hn);
+      [rewrite nth_error_map, H2; reflexivity|rewrite nth_error_map, H1; reflexivity|exact Hgt|exact I2|exact I1].
+Qed.
+
+Lemma t_last_in_ids tr : In (t_last tr) (ids tr).
+Proof. destruct (ids_last tr) as [l ->]. apply in_or_app. right. left. reflexivity. Qed.
+
+Lemma lasts_nodup trs alive prev :
+  NoDup (all_ids_of trs) -> NoDup alive -> lasts trs alive = Ok prev -> NoDup prev.
+Proof.
+  intros Hn Ha Hl. apply lasts_spec in Hl. apply NoDup_nth_error. intros i j Hi Hij.
+  destruct (nth_error prev i) as [a|] eqn:Ei; [|apply nth_error_None in Ei; lia].
+  symmetry in Hij.
+  destruct (Forall2_nth_r _ _ _ Hl _ _ Ei) as (k1 & Hk1 & tr1 & Ht1 & L1).
+  destruct (Forall2_nth_r _ _ _ Hl _ _ Hij) as (k2 & Hk2 & tr2 & Ht2 & L2).
+  assert (k1 = k2).
+  { eapply (tracks_disjoint trs k1 k2 tr1 tr2 a); eauto.
+    - rewrite <- L1. apply t_last_in_ids.
+    - rewrite <- L2. apply t_last_in_ids. }
+  subst k2. rewrite NoDup_nth_error in Ha. apply Ha; [apply nth_error_Some; congruence|congruence].
+Qed.
+
+(* ------------------------------------------------------------------------------------------ *)
+(* one frame = a sequence of events, one per droplet of the frame                              *)
+(* ------------------------------------------------------------------------------------------ *)
+Lemma step_events m t f n alive trs trs' :
+  step m t f n alive trs = Ok trs' ->
+  valid_idx alive trs -> NoDup alive -> NoDup (all_ids_of trs) ->
+  exists evs, apply_events t trs evs = Ok trs' /\ Permutation (map ev_did evs) (frame_ids f n) /\
+              forall k d, In (Append k d) evs -> In k alive.
+Proof.
+  intros H V Ha Hn. destruct m as [ov|D md]; simpl in H.
+  - destruct (ov_frame_events ov t alive _ _ _ H) as (evs & Hap & Hm & Hal).
+    exists evs. rewrite Hm. auto.
+  - destruct (lasts_total trs alive V) as [prev Hl].
+    assert (Hnp : NoDup prev) by (eapply lasts_nodup; eauto).
+    destruct (dist_frame_spec D md t f n alive trs trs' H prev Hl Hnp)
+      as (links & evsA & news & Hcf & F2 & Hnews & Hnn & Hap).
+    exists (evsA ++ map New news). split; [exact Hap|]. split.
+    + rewrite map_app, map_map. simpl. rewrite map_id.
+      assert (E : map ev_did evsA = map snd links).
+      { clear - F2. induction F2 as [|ab ev l1 l2 (i & k & _ & _ & ->) F IH]; simpl; [reflexivity|].
+        rewrite IH. reflexivity. }
+      rewrite E. apply NoDup_Permutation.
+      * apply NoDup_app_intro; [apply (cf_snd _ _ _ _ _ _ Hcf)|exact Hnn|].
+        intros b H1 H2. apply Hnews in H2. tauto.
+      * apply frame_ids_nodup.
+      * intros b. rewrite in_app_iff, Hnews. split.
+        -- intros [Hb|[Hb _]]; [|exact Hb]. apply in_map_iff in Hb. destruct Hb as ([a b'] & <- & Hab).
+           apply (cf_in _ _ _ _ _ _ Hcf) in Hab. tauto.
+        -- intros Hb. destruct (in_dec did_eq_dec b (map snd links)); auto.
+    + intros k d Hin. apply in_app_iff in Hin. destruct Hin as [Hin|Hin].
+      * clear - F2 Hin. induction F2 as [|ab ev l1 l2 (i & k' & Hk & _ & ->) F IH]; [destruct Hin|].
+        destruct Hin as [E|Hin]; [inversion E; subst; eapply nth_error_In; eauto|auto].
+      * apply in_map_iff in Hin. destruct Hin as (? & ? & _). discriminate.
+Qed.
+
+(* ------------------------------------------------------------------------------------------ *)
+(* the basic invariant: partition and time stamps                                              *)
+(* ------------------------------------------------------------------------------------------ *)
+Definition stamped (frames : list frame) (trs : list track) : Prop :=
+  forall e, In e (all_entries trs) ->
+            exists n, nth_error frames (fr_of e) = Some (fst e, n) /\ snd (snd e) < n.
+
+Definition Inv0 (done : list frame) (trs : list track) : Prop :=
+  Permutation (all_ids_of trs) (all_ids done) /\ stamped done trs.
+
+Lemma Inv0_nodup done trs : Inv0 done trs -> NoDup (all_ids_of trs).
+Proof.
+  intros [Hp _]. eapply Permutation_NoDup; [symmetry; exact Hp|]. apply all_ids_from_nodup.
+Qed.
+
+Lemma all_ids_snoc done t n : all_ids (done ++ [(t, n)]) = all_ids done ++ frame_ids (length done) n.
+Proof.
+  unfold all_ids. rewrite all_ids_from_app. simpl. rewrite app_nil_r, Nat.add_0_r. reflexivity.
+Qed.
+
+Lemma Inv0_step m done t n trs trs' :
+  Inv0 done trs ->
+  step m t (length done) n (alive_idx (last_time done) trs) trs = Ok trs' ->
+  Inv0 (done ++ [(t, n)]) trs' /\
+  exists evs, apply_events t trs evs = Ok trs' /\
+              Permutation (map ev_did evs) (frame_ids (length done) n) /\
+              forall k d, In (Append k d) evs -> In k (alive_idx (last_time done) trs).
+Proof.
+  intros I H. assert (Hn := Inv0_nodup _ _ I). destruct I as [Hp Hs].
+  destruct (step_events _ _ _ _ _ _ _ H (alive_idx_valid _ _) (alive_idx_nodup _ _) Hn)
+    as (evs & Hap & Hperm & Hal).
+  split; [|eauto]. split.
+  - unfold all_ids_of. rewrite (apply_events_entries _ _ _ _ Hap), map_app, map_map. simpl.
+    rewrite all_ids_snoc. apply Permutation_app; [exact Hp|exact Hperm].
+  - intros e He. apply (Permutation_in _ (apply_events_entries _ _ _ _ Hap)) in He.
+    apply in_app_iff in He. destruct He as [He|He].
+    + destruct (Hs e He) as (n' & Hn' & Hj). exists n'. split; [|exact Hj].
+      rewrite nth_error_app1; [exact Hn'|]. apply nth_error_Some. congruence.
+    + apply in_map_iff in He. destruct He as (ev & <- & Hev).
+      assert (Hd : In (ev_did ev) (frame_ids (length done) n)).
+      { eapply Permutation_in; [exact Hperm|]. apply in_map. exact Hev. }
+      apply in_frame_ids in Hd. destruct Hd as [Hf Hj]. unfold fr_of. simpl. exists n.
+      rewrite Hf, nth_error_mid. auto.
+Qed.
+
+Lemma Inv0_final m frames trs : track_all m frames = Ok trs -> Inv0 frames trs.
+Proof.
+  apply (run_inv m Inv0).
+  - split; [reflexivity|]. intros e [].
+  - intros done t n rest trs0 trs' _ I H. apply (Inv0_step m done t n trs0 trs' I H).
+Qed.
+
+(* ------------------------------------------------------------------------------------------ *)
+(* Theorems: partition, time stamps, totality, prefix                                          *)
+(* ------------------------------------------------------------------------------------------ *)
+Theorem track_partition m frames trs :
+  track_all m frames = Ok trs ->
+  Permutation (all_ids_of trs) (all_ids frames) /\ NoDup (all_ids_of trs).
+Proof.
+  intros H. assert (I := Inv0_final _ _ _ H). split; [apply I|eapply Inv0_nodup; eauto].
+Qed.
+
+Theorem track_time_stamp m frames trs :
+  track_all m frames = Ok trs ->
+  forall tr t d, In tr trs -> In (t, d) (entries tr) ->
+                 exists n, nth_error frames (fst d) = Some (t, n) /\ snd d < n.
+Proof.
+  intros H tr t d Htr He. destruct (Inv0_final _ _ _ H) as [_ Hs].
+  apply (Hs (t, d)). apply in_all_entries. eauto.
+Qed.
+
+Lemma step_total m t f n alive trs :
+  valid_idx alive trs -> exists trs', step m t f n alive trs = Ok trs'.
+Proof.
+  intros V. destruct m as [ov|D md]; simpl.
+  - apply ov_frame_total. exact V.
+  - apply dist_frame_total. exact V.
+Qed.
+
+Theorem track_total m frames : exists trs, track_all m frames = Ok trs.
+Proof.
+  unfold track_all. generalize 0 (@None Q) (@nil track).
+  induction frames as [|[t n] frames IH]; intros f tp trs; simpl; [eauto|].
+  destruct (step_total m t f n (alive_idx tp trs) trs (alive_idx_valid _ _)) as [trs' ->]. apply IH.
+Qed.
+
+(* the guard of the distance method is what makes it total: without it, cdist is called with an
+   empty point set as soon as a frame without droplets follows a frame with droplets *)
+Example unguarded_fails :
+  dist_frame_unguarded (fun _ _ => 1%Q) None 1%Q 1 0 [0] [t_new (0%Q, (0, 0))] = Err ECdistEmpty.
+Proof. reflexivity. Qed.
+
+(* tracking a longer time course extends the tracks of the shorter one: earlier entries are never
+   changed, tracks keep their position *)
+Theorem track_prefix m fr1 fr2 trs2 :
+  track_all m (fr1 ++ fr2) = Ok trs2 ->
+  exists trs1, track_all m fr1 = Ok trs1 /\ ext trs1 trs2.
+Proof.
+  intros H. unfold track_all in H. destruct (run_app _ _ _ _ _ _ _ H) as (trs1 & H1 & H2).
+  exists trs1. split; [exact H1|].
+  assert (I1 : Inv0 fr1 trs1) by (apply (Inv0_final m); exact H1).
+  set (P := fun (done : list frame) (trs : list track) => Inv0 done trs /\ ext trs1 trs).
+  assert (G : P (fr1 ++ fr2) trs2).
+  { apply (run_inv_gen m P (fr1 ++ fr2)) with (rest := fr2) (done := fr1) (trs := trs1).
+    - intros done t n rest trs trs' _ [I E] Hs.
+      destruct (Inv0_step m done t n trs trs' I Hs) as (I' & evs & Hap & _).
+      split; [exact I'|]. eapply ext_trans; [exact E|]. eapply apply_events_ext; eauto.
+    - reflexivity.
+    - split; [exact I1|apply ext_refl].
+    - rewrite Nat.add_0_r in H2. unfold last_time. exact H2. }
+  apply G.
+Qed.
+
+(* ------------------------------------------------------------------------------------------ *)
+(* one droplet per frame, gap-free                                                             *)
+(* ------------------------------------------------------------------------------------------ *)
+Definition consec (tr : track) : Prop := exists s, track_frames tr = seq s (length (entries tr)).
+
+(* droplets of one frame do not overlap an EARLIER droplet of the same frame (what the code needs;
+   implied by "the droplets within each frame do not overlap one another") *)
+Definition inframe_ok (ov : did -> did -> bool) (frames : list frame) : Prop :=
+  forall f t n j0 j, nth_error frames f = Some (t, n) -> j0 < j -> j < n -> ov (f, j0) (f, j) = false.
+
+Definition method_ok (m : method) (frames : list frame) : Prop :=
+  match m with MOverlap ov => inframe_ok ov frames | MDistance _ _ => True end.
+
+Lemma consec_new e : consec (t_new e).
+Proof. exists (fr_of e). reflexivity. Qed.
+
+Lemma consec_append tr e : consec tr -> fst (t_last tr) + 1 = fr_of e -> consec (t_append tr e).
+Proof.
+  intros [s Hs] Hl. exists s. rewrite track_frames_append, entries_append, app_length. simpl.
+  rewrite Nat.add_1_r, seq_snoc, Hs. f_equal. f_equal.
+  destruct (track_frames_last tr) as [l Hl']. rewrite Hl' in Hs.
+  assert (Hlen : length (entries tr) = S (length l)).
+  { apply (f_equal (@length _)) in Hl'. unfold track_frames in Hl'.
+    rewrite map_length, app_length in Hl'. simpl in Hl'. lia. }
+  rewrite Hlen in Hs. symmetry in Hs. apply seq_last_eq in Hs. destruct Hs as [Hx _]. lia.
+Qed.
+
+Lemma last_time_nth done tl :
+  last_time done = Some tl -> exists n, nth_error done (length done - 1) = Some (tl, n).
+Proof.
+  unfold last_time. destruct done as [|x done _] using rev_ind; [discriminate|].
+  rewrite rev_app_distr. simpl. destruct x as [t n]. intros E. inversion E; subst.
+  exists n. rewrite app_length. simpl. replace (length done + 1 - 1) with (length done) by lia.
+  apply nth_error_mid.
+Qed.
+
+(* with pairwise different times, "alive" means: the last droplet is from the previous frame *)
+Lemma alive_last_frame done trs k tr :
+  Inv0 done trs -> distinct_times done ->
+  In k (alive_idx (last_time done) trs) -> nth_error trs k = Some tr ->
+  fst (t_last tr) + 1 = length done.
+Proof.
+  intros [_ Hs] Hd Hk Htr. apply alive_idx_spec in Hk. destruct Hk as (tr' & Htr' & Ha).
+  rewrite Htr in Htr'. inversion Htr'; subst tr'. unfold alive_b in Ha.
+  destruct (last_time done) as [tl|] eqn:E; [|discriminate].
+  apply Qeq_bool_iff in Ha. destruct (last_time_nth _ _ E) as [n Hn].
+  destruct (Hs (snd tr)) as (n' & Hn' & _).
+  { apply in_all_entries. exists tr. split; [eapply nth_error_In; eauto|apply last_entry_in]. }
+  assert (Hlen : length done <> 0) by (intros E0; destruct done; [discriminate|discriminate]).
+  assert (fr_of (snd tr) = length done - 1).
+  { apply (Hd _ _ (t_end tr) tl); [eapply nth_error_times; eauto|eapply nth_error_times; eauto|exact Ha]. }
+  unfold fr_of, t_last in *. lia.
+Qed.
+
+(* appending, each alive track at most once, to tracks that end in the previous frame *)
+Fixpoint targets (evs : list event) : list nat :=
+  match evs with
+  | [] => []
+  | Append k _ :: r => k :: targets r
+  | New _ :: r => targets r
+  end.
+
+Lemma in_targets k evs : In k (targets evs) <-> exists d, In (Append k d) evs.
+Proof.
+  induction evs as [|[k' d'|d'] evs IH]; simpl.
+  - split; [tauto|]. intros (d & []).
+  - rewrite IH. split.
+    + intros [->|(d & Hd)]; eauto.
+    + intros (d & [E|Hd]); [inversion E; auto|eauto].
+  - rewrite IH. split.
+    + intros (d & Hd). eauto.
+    + intros (d & [E|Hd]); [discriminate|eauto].
+Qed.
+
+Lemma consec_events t f evs : forall trs trs',
+  apply_events t trs evs = Ok trs' ->
+  (forall tr, In tr trs -> consec tr) ->
+  NoDup (targets evs) ->
+  (forall ev, In ev evs -> fst (ev_did ev) = f) ->
+  (forall k d, In (Append k d) evs -> exists tr, nth_error trs k = Some tr /\ fst (t_last tr) + 1 = f) ->
+  forall tr, In tr trs' -> consec tr.
+Proof.
+  induction evs as [|ev evs IH]; intros trs trs' H Hc Hnd Hf Hst; simpl in H.
+  - inversion H; subst. exact Hc.
+  - destruct (apply_event t trs ev) as [trs1|e] eqn:E; [|discriminate].
+    apply (IH trs1 trs' H).
+    + destruct ev as [k d|d].
+      * destruct (apply_append_split _ _ _ _ _ E) as (l1 & tr0 & l2 & -> & Hk & ->).
+        intros tr Hin. apply in_mid_iff in Hin. destruct Hin as [->|Hin].
+        -- apply consec_append; [apply Hc; apply in_mid_iff; auto|].
+           destruct (Hst k d (or_introl eq_refl)) as (tr1 & Hn1 & Hl1).
+           subst k. rewrite nth_error_mid in Hn1. inversion Hn1; subst tr1.
+           pose proof (Hf (Append (length l1) d) (or_introl eq_refl)) as Hfd. unfold fr_of. simpl in *. lia.
+        -- apply Hc. apply in_mid_iff. auto.
+      * simpl in E. inversion E; subst trs1. intros tr Hin. apply in_app_iff in Hin.
+        destruct Hin as [Hin|[<-|[]]]; [auto|apply consec_new].
+    + destruct ev; simpl in Hnd; [inversion Hnd; assumption|exact Hnd].
+    + intros ev' Hin. apply Hf. right. exact Hin.
+    + intros k d Hin. destruct (Hst k d (or_intror Hin)) as (tr & Hn & Hl). exists tr. split; [|exact Hl].
+      eapply apply_event_untouched; [exact E| |exact Hn].
+      intros d' ->. simpl in Hnd. inversion Hnd as [|? ? Hnotin _]; subst. apply Hnotin.
+      apply in_targets. eauto.
+Qed.
+
+Definition Inv1 (done : list frame) (trs : list track) : Prop :=
+  Inv0 done trs /\ forall tr, In tr trs -> consec tr.
+
+Lemma nodup_targets_dist (alive : list nat) (prev : list did) links evsA :
+  NoDup alive -> NoDup (map fst links) ->
+  Forall2 (fun (ab : did * did) ev => exists i k, nth_error alive i = Some k /\ nth_error prev i = Some (fst ab) /\
+                                    ev = Append k (snd ab)) links evsA ->
+  NoDup (targets evsA).
+Proof.
+  intros Ha Hl F. induction F as [|ab ev l1 l2 (i & k & Hk & Hp & ->) F IH]; simpl; [constructor|].
+  simpl in Hl. inversion Hl as [|? ? Hnotin Hl']; subst. constructor; [|apply IH; exact Hl'].
+  intros Hin. apply Hnotin. clear - Ha Hk Hp F Hin.
+  induction F as [|ab' ev' l1 l2 (i' & k' & Hk' & Hp' & ->) F IH]; simpl in *; [destruct Hin|].
+  destruct Hin as [->|Hin]; [|right; apply IH; exact Hin].
+  left. assert (i' = i) by (eapply nodup_nth_inj; eauto). subst i'. congruence.
+Qed.
+
+Lemma targets_app a b : targets (a ++ b) = targets a ++ targets b.
+Proof. induction a as [|[k d|d] a IH]; simpl; congruence. Qed.
+
+Lemma targets_news ds : targets (map New ds) = [].
+Proof. induction ds; simpl; auto. Qed.
+
+Lemma Inv1_step m frames done t n rest trs trs' :
+  distinct_times frames -> method_ok m frames ->
+  frames = done ++ (t, n) :: rest -> Inv1 done trs ->
+  step m t (length done) n (alive_idx (last_time done) trs) trs = Ok trs' ->
+  Inv1 (done ++ [(t, n)]) trs'.
+Proof.
+  intros Hd Hm Hfr [I Hc] H.
+  destruct (Inv0_step m done t n trs trs' I H) as (I' & _). split; [exact I'|].
+  assert (Hdd : distinct_times done).
+  { subst frames. eapply distinct_times_prefix; eauto. }
+  assert (Hal : forall k tr, In k (alive_idx (last_time done) trs) -> nth_error trs k = Some tr ->
+                             fst (t_last tr) + 1 = length done).
+  { intros k tr. apply alive_last_frame; assumption. }
+  set (alive := alive_idx (last_time done) trs) in *.
+  destruct m as [ov|D md]; simpl in H.
+  - (* overlap *)
+    simpl in Hm.
+    set (Q := fun (cur : list track) (pre : list did) =>
+                (forall tr, In tr cur -> consec tr) /\
+                forall k, In k alive -> exists tr, nth_error cur k = Some tr /\
+                                                 (fst (t_last tr) + 1 = length done \/ In (t_last tr) pre)).
+    assert (G : Q trs' (frame_ids (length done) n)); [|apply G].
+    apply (ov_frame_inv ov t alive Q (frame_ids (length done) n) trs); [| |exact H].
+    + split; [exact Hc|]. intros k Hk.
+      assert (Hlt : k < length trs) by (apply (alive_idx_valid _ _ k Hk)).
+      destruct (nth_error trs k) as [tr|] eqn:E; [|apply nth_error_None in E; lia].
+      exists tr. split; [reflexivity|]. left. eapply Hal; eauto.
+    + intros cur pre d post ev cur' Hds [Qc Qa] Hev Hap.
+      destruct (frame_ids_split _ _ _ _ _ Hds) as (Hfd & Hjd & Hjn & Hpre & _).
+      destruct (ov_event_cases ov _ _ _ _ Hev) as [(k & -> & Hfil)|[-> _]].
+      * destruct (ov_event_append ov _ _ _ _ _ Hev) as (_ & Hk & tr & Hn & Hov).
+        destruct (apply_append_split _ _ _ _ _ Hap) as (l1 & tr0 & l2 & -> & Hlen & ->).
+        subst k. rewrite nth_error_mid in Hn. inversion Hn; subst tr0. clear Hn.
+        destruct (Qa _ Hk) as (tr1 & Hn1 & Hor). rewrite nth_error_mid in Hn1. inversion Hn1; subst tr1.
+        assert (Hfr1 : fst (t_last tr) + 1 = length done).
+        { destruct Hor as [Hor|Hor]; [exact Hor|]. exfalso.
+          destruct (Hpre _ Hor) as [Hf0 Hj0].
+          assert (Hnf : nth_error frames (length done) = Some (t, n)) by (subst frames; apply nth_error_mid).
+          specialize (Hm (length done) t n (snd (t_last tr)) (snd d) Hnf Hj0 Hjn).
+          rewrite <- Hf0 in Hm at 1. rewrite <- Hfd in Hm. rewrite <- !surjective_pairing in Hm. congruence. }
+        split.
+        -- intros tr' Hin. apply in_mid_iff in Hin. destruct Hin as [->|Hin].
+           ++ apply consec_append; [apply Qc; apply in_mid_iff; auto|]. unfold fr_of. simpl. lia.
+           ++ apply Qc. apply in_mid_iff. auto.
+        -- intros k' Hk'. destruct (Nat.eq_dec k' (length l1)) as [->|Hne].
+           ++ exists (t_append tr (t, d)). rewrite nth_error_mid. split; [reflexivity|].
+              right. apply in_or_app. right. left. reflexivity.
+           ++ destruct (Qa _ Hk') as (tr' & Hn' & Hor').
+              exists tr'. split.
+              ** rewrite <- Hn'. apply nth_error_mid_other. exact Hne.
+              ** destruct Hor'; [auto|right; apply in_or_app; auto].
+      * simpl in Hap. inversion Hap; subst cur'. split.
+        -- intros tr Hin. apply in_app_iff in Hin. destruct Hin as [Hin|[<-|[]]]; [auto|apply consec_new].
+        -- intros k Hk. destruct (Qa _ Hk) as (tr & Hn & Hor). exists tr. split.
+           ++ rewrite nth_error_app1; [exact Hn|]. apply nth_error_Some. congruence.
+           ++ destruct Hor; [auto|right; apply in_or_app; auto].
+  - (* distance *)
+    assert (Hn0 := Inv0_nodup _ _ I).
+    destruct (lasts_total trs alive (alive_idx_valid _ _)) as [prev Hl].
+    assert (Hnp : NoDup prev) by (eapply lasts_nodup; eauto; apply alive_idx_nodup).
+    destruct (dist_frame_spec D md t (length done) n alive trs trs' H prev Hl Hnp)
+      as (links & evsA & news & Hcf & F2 & Hnews & Hnn & Hap).
+    apply (consec_events t (length done) _ _ _ Hap Hc).
+    + rewrite targets_app, targets_news, app_nil_r.
+      eapply nodup_targets_dist; [apply alive_idx_nodup|apply (cf_fst _ _ _ _ _ _ Hcf)|exact F2].
+    + intros ev Hin. apply in_app_iff in Hin. destruct Hin as [Hin|Hin].
+      * assert (Hx : exists ab, In ab links /\ ev_did ev = snd ab).
+        { clear - F2 Hin. induction F2 as [|ab ev' l1 l2 (i & k & _ & _ & ->) F IH]; [destruct Hin|].
+          destruct Hin as [<-|Hin]; [exists ab; simpl; auto|].
+          destruct (IH Hin) as (ab' & H1 & H2). exists ab'. simpl. auto. }
+        destruct Hx as ([a b] & Hab & ->). apply (cf_in _ _ _ _ _ _ Hcf) in Hab.
+        destruct Hab as (_ & Hb & _). apply in_frame_ids in Hb. tauto.
+      * apply in_map_iff in Hin. destruct Hin as (b & <- & Hb). apply Hnews in Hb.
+        destruct Hb as [Hb _]. apply in_frame_ids in Hb. tauto.
+    + intros k d Hin. apply in_app_iff in Hin. destruct Hin as [Hin|Hin].
+      * assert (Hk : In k alive).
+        { clear - F2 Hin. induction F2 as [|ab ev l1 l2 (i & k' & Hk & _ & ->) F IH]; [destruct Hin|].
+          destruct Hin as [E|Hin]; [inversion E; subst; eapply nth_error_In; eauto|auto]. }
+        assert (Hlt : k < length trs) by (apply (alive_idx_valid _ _ k Hk)).
+        destruct (nth_error trs k) as [tr|] eqn:E; [|apply nth_error_None in E; lia].
+        exists tr. split; [reflexivity|]. eapply Hal; eauto.
+      * apply in_map_iff in Hin. destruct Hin as (? & ? & _). discriminate.
+Qed.
+
+Theorem track_consecutive m frames trs :
+  distinct_times frames -> method_ok m frames ->
+  track_all m frames = Ok trs ->
+  forall tr, In tr trs -> exists s, track_frames tr = seq s (length (entries tr)).
+Proof.
+  intros Hd Hm H.
+  assert (G : Inv1 frames trs); [|apply G].
+  apply (run_inv m Inv1 frames); [| |exact H].
+  - split; [split; [reflexivity|intros e []]|intros tr []].
+  - intros done t n rest trs0 trs' Hfr I Hs. eapply Inv1_step; eauto.
+Qed.
+
+(* at most one droplet per frame ... *)
+Theorem track_one_per_frame m frames trs :
+  increasing_times frames -> method_ok m frames -> track_all m frames = Ok trs ->
+  forall tr, In tr trs -> NoDup (track_frames tr).
+Proof.
+  intros Hi Hm H tr Htr.
+  destruct (track_consecutive m frames trs (increasing_distinct _ Hi) Hm H tr Htr) as [s ->].
+  apply seq_NoDup.
+Qed.
+
+(* ... covering a gap-free run of consecutive frames *)
+Theorem track_gap_free m frames trs :
+  increasing_times frames -> method_ok m frames -> track_all m frames = Ok trs ->
+  forall tr f1 f2 g, In tr trs -> In f1 (track_frames tr) -> In f2 (track_frames tr) ->
+                     f1 <= g <= f2 -> In g (track_frames tr).
+Proof.
+  intros Hi Hm H tr f1 f2 g Htr H1 H2 Hg.
+  destruct (track_consecutive m frames trs (increasing_distinct _ Hi) Hm H tr Htr) as [s E].
+  rewrite E in *. apply in_seq in H1. apply in_seq in H2. apply in_seq. lia.
+Qed.
+
+(* without the in-frame hypothesis the overlap method can put two droplets of one frame into one
+   track: a droplet that overlaps the droplet appended just before it follows it *)
+Definition ov_chain (a b : did) : bool :=
+  (did_eqb a (0, 0) && did_eqb b (1, 0)) || (did_eqb a (1, 0) && did_eqb b (1, 1)).
+
+Example overlap_two_per_frame_without_hypothesis :
+  track_all (MOverlap ov_chain) [(0%Q, 1); (1%Q, 2)]
+  = Ok [([(0%Q, (0, 0)); (1%Q, (1, 0))], (1%Q, (1, 1)))].
+Proof. vm_compute. reflexivity. Qed.
+
+(* ------------------------------------------------------------------------------------------ *)
+(* statements as used in Properties/C06.v (times strictly increasing = StronglySorted Qlt)     *)
+(* ------------------------------------------------------------------------------------------ *)
+Definition times_increasing (frames : list frame) : Prop := StronglySorted Qlt (times frames).
+
+Lemma c06_partition : forall m frames trs,
+  track_all m frames = Ok trs ->
+  Permutation (all_ids_of trs) (all_ids frames) /\ NoDup (all_ids_of trs).
+Proof. exact track_partition. Qed.
+
+Lemma c06_time_stamp : forall m frames trs,
+  track_all m frames = Ok trs ->
+  forall tr t d, In tr trs -> In (t, d) (entries tr) ->
+                 exists n, nth_error frames (fst d) = Some (t, n) /\ snd d < n.
+Proof. exact track_time_stamp. Qed.
+
+Lemma c06_total : forall m frames, exists trs, track_all m frames = Ok trs.
+Proof. exact track_total. Qed.
+
+Lemma c06_prefix : forall m fr1 fr2 trs2,
+  track_all m (fr1 ++ fr2) = Ok trs2 ->
+  exists trs1, track_all m fr1 = Ok trs1 /\
+    length trs1 <= length trs2 /\
+    forall k tr, nth_error trs1 k = Some tr ->
+                 exists tr' suf, nth_error trs2 k = Some tr' /\ entries tr' = entries tr ++ suf.
+Proof. exact track_prefix. Qed.
+
+Lemma c06_one_per_frame : forall m frames trs,
+  times_increasing frames -> method_ok m frames -> track_all m frames = Ok trs ->
+  forall tr, In tr trs -> NoDup (track_frames tr).
+Proof.
+  intros m frames trs Hs. apply track_one_per_frame. apply sorted_increasing. exact Hs.
+Qed.
+
+Lemma c06_gap_free : forall m frames trs,
+  times_increasing frames -> method_ok m frames -> track_all m frames = Ok trs ->
+  forall tr, In tr trs -> exists s, track_frames tr = seq s (length (entries tr)).
+Proof.
+  intros m frames trs Hs. apply track_consecutive. apply increasing_distinct, sorted_increasing. exact Hs.
+Qed.
+
+Lemma c06_gap_free_between : forall m frames trs,
+  times_increasing frames -> method_ok m frames -> track_all m frames = Ok trs ->
+  forall tr f1 f2 g, In tr trs -> In f1 (track_frames tr) -> In f2 (track_frames tr) ->
+                     f1 <= g <= f2 -> In g (track_frames tr).
+Proof.
+  intros m frames trs Hs. apply track_gap_free. apply sorted_increasing. exact Hs.
+Qed.
+
+(* a concrete time course satisfying the hypotheses: 4 frames, one of them empty, a droplet that
+   continues, one that disappears, one that appears *)
+Definition ex_frames : list frame := [(0%Q, 2); ((1 # 2)%Q, 1); (2%Q, 0); (3%Q, 1)].
+Definition ex_ov (a b : did) : bool := did_eqb a (0, 0) && did_eqb b (1, 0).
+
+Lemma ex_increasing : times_increasing ex_frames.
+Proof.
+  unfold times_increasing, ex_frames, times. simpl.
+  repeat (constructor; [|repeat (constructor; try reflexivity)]). constructor.
+Qed.
+
+Lemma ex_inframe : method_ok (MOverlap ex_ov) ex_frames.
+Proof.
+  intros f t n j0 j Hn Hlt Hj. unfold ex_ov.
+  destruct f as [|[|[|[|f]]]]; simpl in Hn; inversion Hn; subst; try lia.
+  - assert (j = 1) by lia. assert (j0 = 0) by lia. subst. reflexivity.
+  - destruct f; discriminate.
+Qed.
+
+Lemma ex_result :
+  track_all (MOverlap ex_ov) ex_frames
+  = Ok [([(0%Q, (0, 0))], ((1 # 2)%Q, (1, 0))); ([], (0%Q, (0, 1))); ([], (3%Q, (3, 0)))].
+Proof. vm_compute. reflexivity. Qed.
+
+Lemma ex_result_dist :
+  track_all (MDistance (fun a b => if did_eqb a (0, 0) then 1%Q else 3%Q) (Some 2%Q)) ex_frames
+  = Ok [([(0%Q, (0, 0))], ((1 # 2)%Q, (1, 0))); ([], (0%Q, (0, 1))); ([], (3%Q, (3, 0)))].
+Proof. vm_compute. reflexivity. Qed.
+
+Lemma overlap_two_per_frame_witness :
+  exists ov frames trs tr, track_all (MOverlap ov) frames = Ok trs /\ In tr trs /\
+                           ~ NoDup (track_frames tr).
+Proof.
+  exists ov_chain, [(0%Q, 1); (1%Q, 2)], [([(0%Q, (0, 0)); (1%Q, (1, 0))], (1%Q, (1, 1)))],
+         ([(0%Q, (0, 0)); (1%Q, (1, 0))], (1%Q, (1, 1))).
+  split; [exact overlap_two_per_frame_without_hypothesis|]. split; [left; reflexivity|].
+  intros H. unfold track_frames, entries, fr_of in H. simpl in H.
+  inversion H as [|? ? _ H']; subst. inversion H' as [|? ? Hn _]; subst. apply Hn. left. reflexivity.
+Qed.
